@@ -11,7 +11,7 @@ THEOREMS = ['Bluebell.C12_more_indented_opens_one', 'Bluebell.C12_same_indent_sa
             'Bluebell.C12_tab_is_spaces', 'Bluebell.C12_blank_around',
             'Bluebell.C12_counterexample_first_line', 'Bluebell.C12_counterexample_between_levels',
             'Bluebell.C12_trailing_spaces', 'Bluebell.C12_trailing_spaces_same_document',
-            'Bluebell.C12_newlines_are_blank_lines', 'Bluebell.C12_blank_lines_between']
+            'Bluebell.C12_newlines_are_blank_lines', 'Bluebell.C12_blank_lines_between', 'Bluebell.C12_extra_newlines_between']
 IND, DED = '\x0e', '\x0f'
 
 
